@@ -101,7 +101,7 @@ def cargo_kani(crate_rel, filters, features, target, rep, timeout_each=600, jobs
     return rc, out + '\n' + err, secs, to
 
 
-def run_harnesses(rep, crate_rel, harnesses, features, target, timeout_each=600, extra=(), harness_file=None, playback_features=None, jobs=None, guard=True):
+def run_harnesses(rep, crate_rel, harnesses, features, target, timeout_each=600, extra=(), harness_file=None, playback_features=None, jobs=None, guard=True, canary_id='canary.kani'):
     """Runs the given Harness list in one cargo-kani invocation; adds one Obligation per harness."""
     names = [h.name for h in harnesses] + ['verif_canary_must_fail']
     t0 = time.time()
@@ -172,7 +172,7 @@ def run_harnesses(rep, crate_rel, harnesses, features, target, timeout_each=600,
                 ob.detail += '\n[playback failed: %r]' % e
     can = [r for full, r in parsed.items() if full.endswith('verif_canary_must_fail')]
     ok = bool(can) and can[0]['status'] == 'FAILED'
-    rep.add(Obligation('canary.kani', 'false assertion must be rejected (run in the same cargo-kani invocation)', 'vacuity', 'kani/cbmc',
+    rep.add(Obligation(canary_id, 'false assertion must be rejected (run in the same cargo-kani invocation)', 'vacuity', 'kani/cbmc',
                        status='discharged' if ok else 'undecided', seconds=can[0]['time'] if can else 0.0,
                        detail='' if ok else 'kani did not reject the canary harness: ' + out[-400:]))
     rep.extra.setdefault('kani_runs', []).append({
